@@ -17,6 +17,7 @@ from mc.common import call, Raised, DimArray, Axis, py
 from mc.props import c01
 
 ID = "C07"
+OEO = True      # a third of the cases get a second pass on the same array after an in-place edit (engine._oeo)
 VARIANT_SWEEP = True      # thorough tier: every case on every history variant of its array (see mc/domains.py VSHIFT)
 TITLE = "reindexing moves data with its labels"
 RULE = ("product of (arrays 1-3D, reindexed axis at every position, 7 kind/order variants, lengths 0-4, int and float data) x "
